@@ -27,7 +27,7 @@ impl FeatureIter {
             #[doc=#doc_inner]
             #[inline]
             #vis fn #ident_iter_fn() -> #ident_iter_struct {
-                use ::core::iter::Iterator;
+                use ::core::iter::Iterator as _;
                 #ident_iter_struct {
                     inner: Self::#ident_table_enum.iter().copied(),
                 }
